@@ -150,27 +150,10 @@ def worker(shard, nshards, qs, thorough, r):
                 ref.append(None)
         if all(x is None for x in ref):
             continue  # DuckDB does not accept the original: outside the fragment
-        # SQLite accelerator: original results on every small instance
-        sdbs = sqlite_dbs(tables)
-        sref = []
-        sqlite_ok = True
-        # the original is read as DuckDB SQL (e.g. NULLs sort last by default): SQLite gets its transpilation
-        try:
-            orig_sqlite = tree.sql("sqlite")
-        except Exception:
-            orig_sqlite, sqlite_ok = sql, False
-        for data in (sdbs if sqlite_ok else []):
-            s = oe.Sqlite({t: SCHEMA[t] for t in tables}, data)
-            try:
-                sref.append(s.run(orig_sqlite))
-            except oe.EngineError:
-                sqlite_ok = False
-                s.close()
-                break
-            s.close()
+        # DuckDB decides on its fixed family; SQLite (accelerator) runs EVERY small instance: one database per
+        # instance, the original and all rewritten states executed on it
+        bad: dict = {}
         for vd, (label, vs) in states.items():
-            is_t3 = label.startswith("T3:")
-            bad = None
             for data, rr in zip(ddbs, ref):
                 if rr is None:
                     continue
@@ -178,45 +161,72 @@ def worker(shard, nshards, qs, thorough, r):
                 try:
                     names, rows = duck_run(vd, data)
                 except oe.EngineError as e:
-                    bad = (data, f"DuckDB rejects the rewritten query: {str(e)[:100]}")
+                    bad[vd] = (data, f"DuckDB rejects the rewritten query: {str(e)[:100]}")
                     break
                 why = oe.compare_results(rr[1], rows, order_pos)
                 if why is None and [n.lower() for n in names] != [n.lower() for n in rr[0]]:
                     why = f"column names {rr[0]} -> {names}"
                 if why:
-                    bad = (data, f"{why}: original {oe.norm_rows(rr[1])[:5]} vs rewritten {oe.norm_rows(rows)[:5]}")
+                    bad[vd] = (data, f"{why}: original {oe.norm_rows(rr[1])[:5]} vs rewritten {oe.norm_rows(rows)[:5]}")
                     break
-            if bad is None and sqlite_ok:
-                for data, rr in zip(sdbs, sref):
-                    res["sqlite_pairs"] += 1
-                    s = oe.Sqlite({t: SCHEMA[t] for t in tables}, data)
+        try:
+            orig_sqlite = tree.sql("sqlite")  # the original is read as DuckDB SQL (NULLs sort last ...): SQLite gets its transpilation
+            sqlite_ok = True
+        except Exception:
+            sqlite_ok = False
+        live = {vd: vs for vd, (label, vs) in states.items() if vd not in bad}
+        if sqlite_ok and live:
+            dead_on_sqlite = set()
+            for data in sqlite_dbs(tables):
+                if not live:
+                    break
+                s = oe.Sqlite({t: SCHEMA[t] for t in tables}, data)
+                try:
                     try:
-                        names, rows = s.run(vs)
+                        rr = s.run(orig_sqlite)
                     except oe.EngineError:
-                        s.close()
-                        break  # SQLite cannot run the rewritten text: no lead from this engine
-                    s.close()
-                    if oe.compare_results(rr[1], rows, order_pos) is not None:
-                        # lead: confirm on DuckDB with this instance
-                        try:
-                            o = duck_run(orig_duck, data)
-                            n2, r2 = duck_run(vd, data)
-                        except oe.EngineError:
-                            res["leads_unconfirmed"] += 1
+                        break  # SQLite cannot run the original: no leads from this engine
+                    for vd, vs in list(live.items()):
+                        if vd in dead_on_sqlite:
                             continue
-                        why = oe.compare_results(o[1], r2, order_pos)
-                        if why:
-                            bad = (data, f"{why}: original {oe.norm_rows(o[1])[:5]} vs rewritten {oe.norm_rows(r2)[:5]} (found on SQLite, confirmed on DuckDB)")
-                            break
-                        res["leads_unconfirmed"] += 1
-            if bad:
-                data, msg = bad
-                rule = label.split(":")[-1] if label.startswith("prefix") else label
-                if is_t3:
-                    if len(res["t3_leads"]) < 20:
-                        res["t3_leads"].append({"sql": sql, "rules": label, "data": data, "msg": msg})
-                    continue
-                record(f"result|{rule}|{'+'.join(tags)}", sql, vd, data, f"after {label}: {msg}")
+                        res["sqlite_pairs"] += 1
+                        try:
+                            names, rows = s.run(vs)
+                        except oe.EngineError:
+                            dead_on_sqlite.add(vd)  # SQLite cannot run the rewritten text: no lead from this engine
+                            continue
+                        if oe.compare_results(rr[1], rows, order_pos) is not None:
+                            try:
+                                o = duck_run(orig_duck, data)
+                                n2, r2 = duck_run(vd, data)
+                            except oe.EngineError:
+                                res["leads_unconfirmed"] += 1
+                                continue
+                            why = oe.compare_results(o[1], r2, order_pos)
+                            if why:
+                                bad[vd] = (data, f"{why}: original {oe.norm_rows(o[1])[:5]} vs rewritten {oe.norm_rows(r2)[:5]} (found on SQLite, confirmed on DuckDB)")
+                                del live[vd]
+                            else:
+                                res["leads_unconfirmed"] += 1
+                finally:
+                    s.close()
+        # attribution: along the pipeline only the FIRST failing prefix is blamed (later prefixes inherit the damage)
+        labels = {vd: label for vd, (label, vs) in states.items()}
+        failing = [(labels[vd], vd, data, msg) for vd, (data, msg) in bad.items()]
+        prefix_fail = sorted((int(l.split(":")[1]), l, vd, data, msg) for l, vd, data, msg in failing if l.startswith("prefix:"))
+        report = []
+        if prefix_fail:
+            report.append(prefix_fail[0][1:])
+            res["inherited"] = res.get("inherited", 0) + len(prefix_fail) - 1
+        report += [f for f in failing if not f[0].startswith("prefix:")]
+        for label, vd, data, msg in report:
+            rule = label.split(":")[-1] if label.startswith("prefix") else label
+            if label.startswith("T3:"):
+                if len(res["t3_leads"]) < 20:
+                    res["t3_leads"].append({"sql": sql, "rules": label, "data": data, "msg": msg})
+                continue
+            rule = rule.replace("qualify+", "")
+            record(f"result|{rule}|{'+'.join(tags)}", sql, vd, data, f"after {label}: {msg}")
         if len(res["samples"]) < 2 and qi % 131 == shard:
             res["samples"].append({"sql": sql, "distinct_states": len(states), "first": next(iter(states))[:160]})
     duck.close()
